@@ -399,6 +399,7 @@ class SymdelDB:
 
 
     def __init__(self, seqs, max_edits):
+        seqs = ensure_numpy(seqs)
         self.seqs = seqs
         self.max_edits = max_edits
         self.variant_dict = {}
@@ -438,6 +439,7 @@ class SymdelDB:
         """
 
         ans = []
+        seqs2 = ensure_numpy(seqs2)
         is_custom = custom_distance not in (None, 'hamming')
         if custom_distance == 'hamming':
             custom_distance = _hamming_replacement
@@ -528,6 +530,7 @@ def symdel(seqs, max_edits=1, max_returns=None, n_cpu=1,
         output_type,
         seqs2
     )
+    seqs = ensure_numpy(seqs)
     symdeldb = SymdelDB(seqs, max_edits)
 
     if seqs2 is None:
